@@ -254,7 +254,10 @@ def run_check(pid, tier, seed, jobs, select=None):
             confirmed = None
             tried = []
             for o in obs[:4]:
-                rep = do_replay(replay_specs.get(r['unit']), o['model'] or {})
+                if not o['model']:
+                    rep = {'confirmed': False, 'detail': 'the solver refuted the obligation without a counter-model'}
+                else:
+                    rep = do_replay(replay_specs.get(r['unit']), o['model'])
                 tried.append({'model': o['model'], 'path': o['path'], 'backend': o['backend'], 'extra': o['extra'], 'replay': rep})
                 if rep.get('confirmed'):
                     confirmed = tried[-1]
